@@ -6,6 +6,7 @@ import glob
 import json
 import os
 import random
+import shutil
 import re
 import warnings
 
@@ -61,11 +62,10 @@ def border_job(job):
             a.append(tokb(own, vals))
             b.append("edge" if isinstance(nb, str) else tokb(nb, vals))
         return a, b
-    trace = {"ev": [], "meta": {"orient": orient, "line": line, "strokes": strokes, "idx": idx}}
-    for s in strokes:
-        o, ln, v = s["o"], s["len"], s["v"]
+    trace = {"init": ["none"] * n, "ev": [], "meta": {"orient": orient, "line": line, "strokes": strokes, "idx": idx}}
+
+    def draw(o, ln, v, use_nb):
         # the same edge can be addressed from either adjacent cell: own side (top/left) or the neighbour's (bottom/right)
-        use_nb = line >= 1 and rng.random() < 0.4
         if orient == "h":
             if use_nb:
                 tb.set_cell_border(line - 1, o - 1, "bottom", vals[v], ln)
@@ -76,6 +76,23 @@ def border_job(job):
                 tb.set_cell_border(o - 1, line - 1, "right", vals[v], ln)
             else:
                 tb.set_cell_border(o - 1, line, "left", vals[v], ln)
+    for s in strokes:
+        o, ln, v = s["o"], s["len"], s["v"]
+        if o == 0 and v != "reopen":
+            # Borders.tla Preloaded(v): the line comes from a file that already shows v along its whole length, in the state Numbers
+            # and the library itself leave behind (the layer's counter equals its latest order)
+            draw(1, n, v, False)
+            doc.save(path)
+            normalise_stroke_counter(path)
+            doc = Document(path)
+            tb = doc.sheets[0].tables[0]
+            trace["init"] = [v] * n
+            continue
+        if v == "reopen":
+            doc = Document(path)
+            tb = doc.sheets[0].tables[0]
+        else:
+            draw(o, ln, v, line >= 1 and rng.random() < 0.4)
         e = {"o": o, "len": ln, "v": v}
         e["oa"], e["ob"] = views(tb)
         try:
@@ -88,6 +105,102 @@ def border_job(job):
     if os.path.exists(path):
         os.remove(path)
     return trace
+
+
+def normalise_stroke_counter(path):
+    """rewrite a saved document so that every table's stroke counter equals the greatest order in use (the state of files written
+    by Numbers and by the library itself); everything else is left as it is"""
+    from numbers_parser.generated import TSTArchives_pb2 as TST
+    from .. import rewrite
+    pkg = rewrite.Pkg.load(path)
+    orders = {}
+
+    def collect(layer, oid):
+        orders[oid] = max([r.order for r in layer.stroke_runs] or [0])
+        return False
+    rewrite._map_messages(pkg, "TST.StrokeLayerArchive", collect, None)
+
+    def fix(sc, oid):
+        refs = list(sc.left_column_stroke_layers) + list(sc.right_column_stroke_layers) + list(sc.top_row_stroke_layers) + list(sc.bottom_row_stroke_layers)
+        top = max([orders.get(r.identifier, 0) for r in refs] or [0])
+        if top and sc.max_order != top:
+            sc.max_order = top
+            return True
+        return False
+    rewrite._map_messages(pkg, "TST.StrokeSidecarArchive", fix, None)
+    pkg.save_single(path)
+
+
+def fixture_border_job(job):
+    """the first stroke drawn on a freshly opened fixture over an edge that already carries a border: the new one wins, for both
+    adjacent cells, on the open document and in the saved file"""
+    (idx, path, seed, scratch) = job
+    warnings.simplefilter("ignore")
+    from numbers_parser import RGB, Border, Document
+    rng = random.Random(seed)
+    out = []
+    try:
+        doc0 = Document(path)
+    except Exception:  # noqa: BLE001
+        return out
+    cands = []
+    for si, sh in enumerate(doc0.sheets):
+        for ti, tb in enumerate(sh.tables):
+            if tb.num_rows * tb.num_cols > 600:
+                continue
+            try:
+                merged = {(r, c) for r, row in enumerate(tb.rows()) for c, cell in enumerate(row) if cell.is_merged or type(cell).__name__ == "MergedCell"}
+                for r, row in enumerate(tb.rows()):
+                    for c, cell in enumerate(row):
+                        if (r, c) in merged:
+                            continue
+                        bd = cell.border
+                        if bd.top is not None and r >= 1 and (r - 1, c) not in merged:
+                            cands.append((si, ti, "h", r, c))
+                        if bd.left is not None and c >= 1 and (r, c - 1) not in merged:
+                            cands.append((si, ti, "v", r, c))
+            except Exception:  # noqa: BLE001
+                continue
+    rng.shuffle(cands)
+    new = Border(7.0, RGB(1, 2, 3), "solid")
+    for k, (si, ti, orient, r, c) in enumerate(cands[:4]):
+        doc = Document(path)                      # a fresh object: the stroke is the first one after loading
+        tb = doc.sheets[si].tables[ti]
+        nr, nc = (r - 1, c) if orient == "h" else (r, c - 1)
+
+        def tok(bd):
+            return "none" if bd is None else ("a" if (bd.width, bd.color, bd.style) == (new.width, new.color, new.style) else "old")
+
+        def views(t):
+            own = t.cell(r, c).border.top if orient == "h" else t.cell(r, c).border.left
+            nb = t.cell(nr, nc).border.bottom if orient == "h" else t.cell(nr, nc).border.right
+            return [tok(own)], [tok(nb)]
+        before = views(tb)[0]
+        use_nb = k % 2 == 1
+        e = {"o": 1, "len": 1, "v": "a"}
+        try:
+            if use_nb:
+                tb.set_cell_border(nr, nc, "bottom" if orient == "h" else "right", new, 1)
+            else:
+                tb.set_cell_border(r, c, "top" if orient == "h" else "left", new, 1)
+            e["oa"], e["ob"] = views(tb)
+            p2 = os.path.join(scratch, "fxb-%d-%d-%d.numbers" % (os.getpid(), idx, k))
+            try:
+                doc.save(p2)
+                t2 = Document(p2).sheets[si].tables[ti]
+                e["ra"], e["rb"] = views(t2)
+            except Exception as ex:  # noqa: BLE001
+                e["ra"] = e["rb"] = ["EXC:" + type(ex).__name__]
+            finally:
+                if os.path.isdir(p2):
+                    shutil.rmtree(p2, ignore_errors=True)
+                elif os.path.exists(p2):
+                    os.remove(p2)
+        except Exception as ex:  # noqa: BLE001
+            e["oa"] = e["ob"] = e["ra"] = e["rb"] = ["EXC:" + type(ex).__name__]
+        out.append({"init": before, "ev": [e], "meta": {"fixture": os.path.basename(path), "table": [si, ti], "orient": orient, "cell": [r, c],
+                                                           "from_neighbour": use_nb, "strokes": [{"o": 1, "len": 1, "v": "a"}], "line": r if orient == "h" else c}})
+    return out
 
 
 # ------------------------------------------------------------------ styles
@@ -254,7 +367,7 @@ def style_job(job):
 
 
 def TB_CFG(n):
-    return 'CONSTANTS N = %d\nValues = {"a", "b"}\nMaxStrokes = 99\nBug = "none"\nSPECIFICATION TSpec\nINVARIANT Done\nCHECK_DEADLOCK FALSE\n' % n
+    return 'CONSTANTS N = %d\nValues = {"a", "b", "old"}\nMaxStrokes = 99\nBug = "none"\nSPECIFICATION TSpec\nINVARIANT Done\nCHECK_DEADLOCK FALSE\n' % n
 
 
 TS_CFG = 'CONSTANTS Cells = {"c1", "c2"}\nAttrs = {"A", "B"}\nMaxOps = 99\nBug = "none"\nSPECIFICATION TSpec\nINVARIANT Done\nCHECK_DEADLOCK FALSE\n'
@@ -286,6 +399,7 @@ def run(ctx):
     ctx.tlc("Borders", bcfg % (5, 3 if q else 4, "none", "VIEW NoHist\n"), what="MC_Borders[5 positions, 2 values]", timeout=3000)
     ctx.tlc("Borders", bcfg % (4, 3, "StampAfterUpdate", "VIEW NoHist\n"), what="Bug_StampAfterUpdate", expect_violation="OpenAgrees", count=False)
     ctx.tlc("Borders", bcfg % (4, 3, "FirstRunWins", "VIEW NoHist\n"), what="Bug_FirstRunWins", expect_violation="FileAgrees", count=False)
+    ctx.tlc("Borders", bcfg % (4, 3, "OrderBeforeBump", "VIEW NoHist\n"), what="Bug_OrderBeforeBump", expect_violation="OpenAgrees", count=False)
     ctx.tlc("Styles", scfg % (6 if q else 7, "none", "VIEW NoHist\n"), what="MC_Styles", timeout=3000)
     ctx.tlc("Styles", scfg % (6, "ReadMarksDirty", "VIEW NoHist\n"), what="Bug_ReadMarksDirty", expect_violation="SavedIsShown", count=False)
     rng = random.Random(ctx.seed + 15)
@@ -317,7 +431,28 @@ def run(ctx):
                  "strokes %s on %s line %d: after stroke %d %s: open %s / %s, reopened %s / %s" % (json.dumps(t["meta"]["strokes"]), t["meta"]["orient"], t["meta"]["line"], line, clause,
                                                                                                  ev["oa"], ev["ob"], ev["ra"], ev["rb"]), t["meta"])
     tracecheck.validate(ctx, "Trace_Borders", TB_CFG(N),
-                        btr, "borders", brej, batch=400, payload=lambda t: {"ev": t["ev"]})
+                        btr, "borders", brej, batch=400, payload=lambda t: {"init": t["init"], "ev": t["ev"]})
+    # fixture tables that already carry borders: the first stroke after loading, over an existing border
+    ctx.stage("fixture-borders")
+    fx = fixtures.readable_fixtures(ctx.workers)
+    if q:
+        fx = [p for p in fx if any(k in os.path.basename(p).lower() for k in ("border", "style", "issue-85", "test-1."))] or fx[:6]
+    ftr = [t for lst in fixtures.pmap(fixture_border_job, [(i, p, ctx.seed * 5 + i, ctx.scratch) for i, p in enumerate(fx)], ctx.workers, chunksize=1) for t in lst]
+    ctx.evaluations += len(ftr)
+    for t in ftr:
+        ctx.distinct.add(("fxb", t["meta"]["fixture"], json.dumps(t["meta"]["table"]), t["meta"]["orient"], json.dumps(t["meta"]["cell"]), t["meta"]["from_neighbour"]))
+    ctx.extra["fixture_border_probes"] = {"documents": len(fx), "probes": len(ftr)}
+    if ftr:
+        ctx.sample({"fixture": ftr[0]["meta"]["fixture"], "edge": [ftr[0]["meta"]["orient"], ftr[0]["meta"]["cell"]], "before": ftr[0]["init"], "after": ftr[0]["ev"][0]["oa"],
+                    "reopened": ftr[0]["ev"][0]["ra"]})
+
+        def frej(t, line, op, clause):
+            ev = t["ev"][line - 1]
+            ctx.fail({"engine": "trace-borders", "clause": clause, "orient": t["meta"]["orient"], "fixture": t["meta"]["fixture"]},
+                     "%s table %s: first stroke after loading over the existing %s border of cell %s (drawn from the %s): %s: open %s / %s, reopened %s / %s"
+                     % (t["meta"]["fixture"], t["meta"]["table"], "top" if t["meta"]["orient"] == "h" else "left", t["meta"]["cell"],
+                        "neighbour" if t["meta"]["from_neighbour"] else "cell itself", clause, ev["oa"], ev["ob"], ev["ra"], ev["rb"]), t["meta"])
+        tracecheck.validate(ctx, "Trace_Borders", TB_CFG(1), ftr, "fixture-borders", frej, batch=400, payload=lambda t: {"init": t["init"], "ev": t["ev"]})
     ctx.stage("styles")
     sh, ns = dump_histories(ctx, "Styles", scfg % (5 if q else 6, "none", ""), "Gen_Styles")
     sh = [h for h in sh if any(o["op"] == "apply" for o in h) and any(o["op"] == "save" for o in h)]
@@ -367,7 +502,7 @@ def run(ctx):
     g["ev"][-1]["rb"] = ["a" if x == "b" else "b" for x in g["ev"][-1]["rb"]]
     rej = []
     tracecheck.validate(ctx, "Trace_Borders", TB_CFG(N),
-                        [g], "selftest", lambda t, l, o, c: rej.append(c), count=False, payload=lambda t: {"ev": t["ev"]})
+                        [g], "selftest", lambda t, l, o, c: rej.append(c), count=False, payload=lambda t: {"init": t["init"], "ev": t["ev"]})
     g2 = copy.deepcopy(next(t for t in strs if any(e["op"] == "save" and e.get("exc") == "" for e in t["ev"])))
     for e in g2["ev"]:
         if e["op"] == "save":
